@@ -112,7 +112,7 @@ def run_multi(datasets, ref, fs, spec, sel):
 def do_mpe(s, a, spec, sel, fs):
     try:
         if spec["mpe"] == "DF":
-            s.mpe("a", sel_freq=list(sel), DF=0.02 * fs)
+            s.mpe("a", sel_freq=list(sel), DF=(spec["DF_lines"] * fs / spec["kw"]["nxseg"] if "DF_lines" in spec else 0.02 * fs))
         elif spec["mpe"] == "DF12":
             # (band half-widths that never put a band limit exactly on a spectral line for whole-number picks: the SDOF-bell band of the
             # library includes / excludes a line by comparison, which is decided by the last bit when a limit coincides with a line)
@@ -297,6 +297,7 @@ def run_single_case(ctx, case, rng):
             spec["kw"]["nxseg"] = int(rng.choice([500, 1000]))
             df_ = fs / spec["kw"]["nxseg"]
             sel = sorted({float(round(f / df_) * df_) for f in fn})
+            spec["DF_lines"] = int(rng.choice([1, 1, 2, 20]))  # e.g. the default DF = 0.1 Hz at fs = 100, nxseg = 1000: one line each side
             ctx.state("picks and band limits exactly on spectral lines (time-unit clause)")
         elif u < 0.6:
             si = sorted({int(round(f)) for f in fn if round(f) >= 1})
@@ -338,6 +339,10 @@ def run_single_case(ctx, case, rng):
         other = run_single(data @ Q.T, fs, spec, sel, None)
         T = lambda p: Q @ p  # noqa: E731
     compare(ctx, tr, alg, base, other, probe, fscale, T, tol)
+    if "DF_lines" in spec and tr.startswith("time"):
+        # on such a grid the decision which lines belong to the band is exposed to the last bit of k*fs: a handful of other time units
+        for k2 in (0.7, 1.1, 1.7, 0.3, 3.3, 0.013, 7.7, 0.9, 1.3, 2.3, 0.17, 13.0):
+            compare(ctx, tr, alg, base, run_single_time(data, fs, k2, spec, sel, ref), probe, k2, (lambda p: p), tol)
     ctx.state(kind)
     if "method_SD" in spec["kw"]:
         ctx.state("method_SD=" + spec["kw"]["method_SD"])
